@@ -85,7 +85,8 @@ subscription that returned ok, which appends its payload; and such a send does a
 theorem c04_produced_only_by_send (st : State) (op : Op) (k : Nat) (s : Sub) (hs : st.subs[k]? = some s) :
     ∃ s', (step st op).1.subs[k]? = some s' ∧
       (s'.produced = s.produced ∨
-        ∃ p, op = .send k p ∧ (step st op).2 = .ok ∧ s'.produced = s.produced ++ [p]) := by
+        ∃ p, (op = .send k p ∨ op = .sendResume k p) ∧ (step st op).2 = .ok ∧
+          s'.produced = s.produced ++ [p]) := by
   obtain ⟨s', h1, h2⟩ := sub_persist op hs
   exact ⟨s', h1, h2.prod⟩
 
@@ -232,6 +233,16 @@ theorem c04_closed_stable (st : State) (op : Op) (k : Nat) (s : Sub) (hs : st.su
       | true => exact hno ⟨cn, hcn, ho⟩
       | false => rw [crel.closed ho] at ho'; cases ho'
 
+/-- **C04.5d** — a send that was parked on a full queue (it had passed its closed check, so it
+*started before* any later close) and is resumed after the connection ended fails and enqueues
+nothing; resumed while the connection is open it is delivered in order (`c04_fifo` covers
+`sendResume` like `send`: both only append to `produced`). -/
+theorem c04_resume_after_conn_end_fails (st : State) (k p : Nat) (s : Sub) (cn : Conn)
+    (hl : lookup st k = some (s, cn)) (hsink : s.clones > 0) (hc : cn.isOpen = false) :
+    step st (.sendResume k p) = (st, .err) := by
+  have hne : (s.clones == 0) = false := by simp; omega
+  simp [step, doSendResume, hl, hne, hc]
+
 /-- closedness along whole runs: after any further operations the sink still reports closed and
 sends still fail -/
 theorem c04_closed_stops (ops : List Op) : ∀ (st : State), Reachable st → ∀ (k : Nat) (s : Sub),
@@ -323,6 +334,16 @@ example : outs (init [(2, 8)]) [.subscribe 0 0 1 1, .accept 0, .subscribe 0 0 2 
 example : outs (init [(2, 8)]) [.subscribe 0 0 1 1, .stop, .connFinish 0, .subscribe 0 0 2 2, .accept 0,
       .connFinish 0, .send 0 5]
     = [.pending 1, .done, .idle, .ignored, .ok, .done, .err] := by decide
+-- a send parked on the full queue: resumed by a writer step it is delivered, resumed after the
+-- connection ended it fails
+example : outs (init [(2, 1)]) [.subscribe 0 0 1 1, .accept 0, .send 0 5, .sendResume 0 5, .writerStep 0,
+      .sendResume 0 5, .connClose 0, .sendResume 0 6]
+    = [.pending 1, .ok, .blocked, .blocked, .frame (.resp 1 1), .ok, .done, .err] := by decide
+-- a method registered with register_subscription_raw (method index 2): no handler future, no closing
+-- notification
+example : outs (init [(2, 8)]) [.subscribe 0 2 1 1, .handlerReturn 0 (.notif 1001), .accept 0, .taskStep 0,
+      .send 0 5, .writerStep 0, .writerStep 0, .writerStep 0]
+    = [.pending 1, .gone, .ok, .idle, .ok, .frame (.resp 1 1), .frame (.data 2 1 5), .empty] := by decide
 -- bounded queue: a full queue blocks the step (state unchanged), a writer step makes room
 example : outs (init [(2, 1)]) [.subscribe 0 0 1 1, .accept 0, .send 0 5, .writerStep 0, .send 0 5]
     = [.pending 1, .ok, .blocked, .frame (.resp 1 1), .ok] := by decide
